@@ -158,8 +158,8 @@ def u_outdated(ip):
     c.oblige("transient_state_has_no_value", ip.getattr(t, "state").f["value"] is None)
 
 
-def model_update_unit(n):
-    @unit(f"C01.model_update.n{n}", "C01", [f"{M}::Model.update"], assumptions=[f"{n} nodes in the update order (units for 0..4; the loop body is uniform)"])
+def model_update_unit(n, uid=None, prop="C01"):
+    @unit(uid or f"C01.model_update.n{n}", prop, [f"{M}::Model.update"], assumptions=[f"{n} nodes in the update order (units for 0..4; the loop body is uniform)"])
     def u(ip, n=n):
         """Model.update() walks the nodes in the stored (topological) order and calls update() exactly once on exactly those that report
         outdated at that moment; Model.update(*names) additionally restricts to the recursive inputs of the named nodes; every node is
@@ -604,6 +604,44 @@ def any_flags_unit(shape):
 
 for _s in SHAPES_C01:
     any_flags_unit(_s)
+
+
+@unit("C01.failed_assignment", "C01", [f"{N}::Value.value.fset", f"{M}::Model.update", f"{N}::Calc.update", f"{N}::Node.flag_outdated"],
+      assumptions=["graph: x -> c1 = f1(x) -> c2 = f2(c1), where f2 RAISES for the assigned value (a user function / a validating distribution may raise)"])
+def u_failed_assignment(ip):
+    """an assignment whose automatic update raises part-way through leaves the model in a state where the invariant still holds: every node
+    that reports up to date holds the from-scratch value for the values the model holds NOW; the exception propagates to the caller."""
+    c = ip.ctx
+    install_graph_models(ip)
+    g = G(ip)
+    x = g.var("x")
+    c1 = g.calc("f1", x, name="c1")
+    c2 = g.calc("f2", c1, name="c2")
+    c3 = g.calc("f3", c2, x, name="c3")
+    model = g.build(c3)
+    armed = {"on": False}
+    f2 = model.f["_nodes"]["c2"].f["_function"]
+
+    def f2_raising(ip_, *a, **k):
+        if armed["on"]:
+            raise PyRaise("ValueError", ("the model cannot be evaluated at this value",))
+        return ip_.call(f2, list(a), k)
+
+    model.f["_nodes"]["c2"].f["_function"] = PyFn(f2_raising, "f2_raising")
+    armed["on"] = True
+    kind, r = try_call(ip, PyFn(lambda ip_: ip_.setattr(model.f["_vars"]["x"], "value", z3.Const("bad_x", U)), "assign"), [])
+    armed["on"] = False
+    c.oblige("exception_propagates", kind == "raise" and r.cls in ("ValueError", "RuntimeError"))  # (Calc.update wraps the user function's error in a RuntimeError)
+    counting = {"on": False, "n": {}}
+    fs = from_scratch(ip, model, counting)
+    stale = [nm for nm, nd in model.f["_nodes"].items() if nd.clsname in ("Calc", "Dist") and ip.truth(ip.getattr(nd, "outdated")) is not True
+             and not (same_value(ip, ip.getattr(nd, "value"), fs[id(nd)]) or isinstance(fs[id(nd)], float))]
+    c.oblige("up_to_date_nodes_hold_from_scratch_values_after_the_failed_assignment", not stale, stale=str(stale), x=str(ip.getattr(model.f["_vars"]["x"], "value")))
+    # and the model recovers: a later valid assignment brings everything up to date
+    ip.setattr(model.f["_vars"]["x"], "value", z3.Const("good_x", U))
+    fs = from_scratch(ip, model, counting)
+    bad = [nm for nm, nd in model.f["_nodes"].items() if ip.truth(ip.getattr(nd, "outdated")) is True or (nd.clsname in ("Calc", "Dist") and not (same_value(ip, ip.getattr(nd, "value"), fs[id(nd)]) or isinstance(fs[id(nd)], float)))]
+    c.oblige("a_later_valid_assignment_restores_coherence", not bad, stale=str(bad))
 
 
 import os as _os  # noqa: E402
